@@ -81,7 +81,7 @@ func c03Extract(path string) [9]string {
 func init() {
 	props["C03"] = func(r *Run, rng *RNG) {
 		thorough := r.Tier == "thorough"
-		r.Rule = "generated documents of every format (PDF with several pages, positioned lines and three fonts of different encodings, the same base font with and without its own /Widths, baselines closer than the glyph height, DOCX, ODT, XLSX, PPTX, EPUB, HTML) plus truncated and corrupted copies that fail or end mid-operand; each document extracted (text, Markdown, chunks as JSON, JSON Lines, CSV, TSV and Markdown, document model, fragments with their geometry) 8 times in a row (thorough: 26), in 3 random orders of all documents, and concurrently on 8 goroutines (thorough: 16 goroutines, 20 rounds) in a binary built with the race detector; content streams that end mid-operand followed by other streams through contentstream.Parser. non-trivial = every document"
+		r.Rule = "generated documents of every format (PDF with several pages, positioned lines and three fonts of different encodings, the same base font with and without its own /Widths, baselines closer than the glyph height, documents with ToUnicode / Type0 / TrueType fonts under random object numbers, DOCX, ODT, XLSX, PPTX, EPUB, HTML) plus truncated and corrupted copies that fail or end mid-operand; each document extracted (text, Markdown, chunks as JSON, JSON Lines, CSV, TSV and Markdown, document model, fragments with their geometry) 8 times in a row (thorough: 26), in 3 random orders of all documents, and concurrently on 8 goroutines (thorough: 16 goroutines, 20 rounds) in a binary built with the race detector; content streams that end mid-operand followed by other streams through contentstream.Parser. non-trivial = every document"
 		words := func(n int, tag string) []string {
 			var out []string
 			for i := 0; i < n; i++ {
@@ -90,6 +90,7 @@ func init() {
 			return out
 		}
 		var docs []c03doc
+		var fontPair [][2]string
 		add := func(kind, ext string, data []byte, bad bool) {
 			docs = append(docs, c03doc{tmpFile(r, ext, data), kind, bad})
 		}
@@ -121,6 +122,25 @@ func init() {
 			pdfLinesFontExtra = ""
 			add("pdf-own-widths", ".pdf", withW, false)
 			add("pdf-standard-widths", ".pdf", mkPDFLines([][]pdfLine{{{x: 72, y: 700, size: 12, text: fmt.Sprintf("Hello World number %d", i)}, {x: 72, y: 680, size: 12, text: "second line of words"}}}, 612, 792), false)
+			// documents with fonts of every kind under random object numbers (what one document calls object 7
+			// is a different font in the next)
+			for k := 0; k < 2; k++ {
+				d := c01GenDoc(rng)
+				add("pdf-fonts", ".pdf", c01Physical(rng, &d), false)
+			}
+			// two documents whose font is the same object number but not the same font
+			{
+				cm := "/CIDInit /ProcSet findresource begin 12 dict begin begincmap 1 begincodespacerange <00> <FF> endcodespacerange 3 beginbfchar <61> <0058> <62> <0059> <63> <005A> endbfchar endcmap end end"
+				pageA := "<< /Type /Page /Parent 2 0 R /MediaBox [0 0 612 792] /Resources << /Font << /F1 4 0 R >> >> /Contents 5 0 R >>"
+				content := c02StreamObj("", []byte("BT /F1 12 Tf 72 700 Td (a cab in a cab) Tj ET"))
+				a := c02RawPDF([]string{"<< /Type /Catalog /Pages 2 0 R >>", "<< /Type /Pages /Kids [3 0 R] /Count 1 >>", pageA,
+					"<< /Type /Font /Subtype /TrueType /BaseFont /ABCDEF+Custom /FirstChar 32 /LastChar 32 /Widths [250] /ToUnicode 6 0 R >>", content, c02StreamObj("", []byte(cm))}, "")
+				b := c02RawPDF([]string{"<< /Type /Catalog /Pages 2 0 R >>", "<< /Type /Pages /Kids [3 0 R] /Count 1 >>", pageA,
+					"<< /Type /Font /Subtype /Type1 /BaseFont /Helvetica /Encoding /MacRomanEncoding >>", content}, "")
+				add("pdf-font4-tounicode", ".pdf", a, false)
+				add("pdf-font4-macroman", ".pdf", b, false)
+				fontPair = append(fontPair, [2]string{docs[len(docs)-2].path, docs[len(docs)-1].path})
+			}
 			// baselines closer than the glyphs are high, in no particular stream order
 			var dense []pdfLine
 			for l := 0; l < 14; l++ {
@@ -143,6 +163,13 @@ func init() {
 			}
 			dz := writeZip(mkDOCXSimple(words(2, "X")))
 			add("docx-truncated", ".docx", dz[:len(dz)/2], true)
+		}
+		// (0) a document read after another one shows its own font's text
+		for _, fp := range fontPair {
+			ta, _, ea := tabula.Open(fp[0]).Text()
+			tb, _, eb := tabula.Open(fp[1]).Text()
+			r.Check(ea == nil && eb == nil && strings.Contains(ta, "X ZXY") && strings.Contains(tb, "a cab in a cab"), "history:font-of-another-document",
+				fmt.Sprintf("two documents with different fonts under the same object number, read one after the other: %q then %q", ta, tb), nil)
 		}
 		// (a) repetition
 		reps := 7
